@@ -174,6 +174,160 @@ def corpus():
     return [{"dst": bytes.fromhex(c["dst"]), "inpkg": c["inpkg"], "ops": [(o["op"], bytes.fromhex(o["a"]), bytes.fromhex(o["b"])) for o in c["ops"]]} for c in json.loads(f.read_text())]
 
 
+# ---------------------------------------------------------------------------------------
+# probe stream: the same calls made from inside a custom template run by the real binary,
+# on the registry / method scope of a real method of a generated package
+# ---------------------------------------------------------------------------------------
+def go_lit(b):
+    return '"' + "".join(chr(c) if 32 <= c < 127 and c not in (34, 92) else "\\x%02x" % c for c in b) + '"'
+
+
+def probe_template(target_iface, target_method, ops, ex_names):
+    L = ["package {{.PkgName}}", "{{- range $i, $iface := .Interfaces}}{{range $j, $m := $iface.Methods}}",
+         '{{- if and (eq $iface.Name %s) (eq $m.Name %s)}}' % (go_lit(target_iface.encode()), go_lit(target_method.encode())),
+         "// @START",
+         "{{- range $.Registry.Imports}}", '// @IMP {{printf "%x" .Path}} {{printf "%x" .Qualifier}}', "{{- end}}"]
+    for n in ex_names:
+        L.append('// @EX %s {{$m.Scope.NameExists %s}}' % (n.hex() or "-", go_lit(n)))
+    for k, (op, a, b) in enumerate(ops):
+        if op in ("AllocateName", "SuggestName"):
+            L.append('// @OP %d name {{printf "%%x" ($m.Scope.%s %s)}}' % (k, op, go_lit(a)))
+        elif op == "NameExists":
+            L.append('// @OP %d bool {{$m.Scope.NameExists %s}}' % (k, go_lit(a)))
+        elif op == "AddImport":
+            L.append('// @OP %d imp {{with $p := $.Registry.AddImport %s %s}}{{printf "%%x" $p.Path}} {{printf "%%x" $p.Qualifier}}{{else}}NIL{{end}}' % (k, go_lit(a), go_lit(b)))
+        elif op == "Imports":
+            L.append('// @OP %d imports{{range $.Registry.Imports}} {{printf "%%x" .Path}}={{printf "%%x" .Qualifier}}{{end}}' % k)
+        elif op == "PkgQualifier":
+            L.append('// @OP %d qual {{printf "%%x" ($.Registry.Imports.PkgQualifier %s)}}' % (k, go_lit(a)))
+    L += ["// @END", "{{- end}}{{end}}{{end}}", ""]
+    return "\n".join(L)
+
+
+def gen_probe_history(rng, dst, inpkg):
+    pre = rng.sample([p for p in PREFIXES if p], rng.randint(1, 3)) + rng.sample([b"http", b"ctx", b"s", b"err", b"mock", b"string", b"h1", b"context"], 2)
+    names = rng.sample(NAMES, rng.randint(2, 4)) + [b"http", b"context"]
+    paths = rng.sample([p for p in PATHS if p], rng.randint(2, 5)) + [b"example.com/m/ext/http", b"context", b"fresh/ctx", dst]
+    ops, added = [], set()
+    for _ in range(rng.randint(8, 40)):
+        k = rng.choice(["AllocateName"] * 4 + ["SuggestName"] * 2 + ["NameExists"] * 2 + ["AddImport"] * 4 + ["Imports", "PkgQualifier"])
+        if k in ("AllocateName", "SuggestName"):
+            ops.append((k, rng.choice(pre), b""))
+        elif k == "NameExists":
+            p = rng.choice(pre)
+            ops.append((k, p + (str(rng.randint(0, 9)).encode() if rng.random() < 0.6 else b""), b""))
+        elif k == "AddImport":
+            p = rng.choice(paths)
+            ops.append((k, rng.choice(names), p))
+            if not (inpkg and p == dst):
+                added.add(p)
+        elif k == "PkgQualifier":
+            if added:
+                ops.append((k, rng.choice(sorted(added)), b""))
+        else:
+            ops.append((k, b"", b""))
+    ex = set()
+    for op, a, b in ops:
+        if op in ("AllocateName", "SuggestName"):
+            ex.add(a)
+            for i in range(1, len(ops) + 3):
+                ex.add(a + str(i).encode())
+        elif op == "NameExists":
+            ex.add(a)
+    return ops, sorted(ex)
+
+
+def probe_stream(ctx, n):
+    """Returns (cases, errors). A case: dict(dst,inpkg,imports,scope,ops,obs) with obs in the out_term format."""
+    import gen_pkgs, shutil
+    root = ctx.scratch / "pm"
+    g = gen_pkgs.Gen(ctx.rng)
+    m = g.module()
+    gen_pkgs.write_module(m, root, testify=False)
+    targets = [(i["name"], mm["n"]) for i in m["ifaces"] if not i["tparams"] for mm in i["methods"] if mm["n"][0].isupper()]
+    if not targets:
+        return [], ["generated module has no usable method"]
+    jobs = []
+    for k in range(n):
+        inpkg = k % 2 == 0
+        dst = (m["src"]["path"] if inpkg else m["mod"] + "/probe_out_%d" % k).encode()
+        ti, tm = ctx.rng.choice(targets)
+        ops, ex = gen_probe_history(ctx.rng, dst, inpkg)
+        tpl = root / ("probe_%d.templ" % k)
+        tpl.write_text(probe_template(ti, tm, ops, ex))
+        cfg = root / ("cfg_%d.yml" % k)
+        cfg.write_text("\n".join([
+            "template: file://%s" % tpl, "require-template-schema-exists: false", "formatter: noop", "force-file-write: true",
+            "dir: %s" % ("src" if inpkg else "probe_out_%d" % k), "filename: probe_%d.txt" % k,
+            "pkgname: %s" % ("src" if inpkg else "probeout"), "packages:", "  %s:" % m["src"]["path"], "    config:", "      all: true", ""]))
+        jobs.append((k, inpkg, dst, ops, ex, cfg, root / ("src" if inpkg else "probe_out_%d" % k) / ("probe_%d.txt" % k)))
+
+    def one(j):
+        k, inpkg, dst, ops, ex, cfg, outp = j
+        p = run([ctx.bins["mockery"], "--config", str(cfg), "--log-level", "error"], cwd=root, env=go_env({"GOFLAGS": "-mod=mod"}), timeout=120)
+        if p.returncode != 0 or not outp.exists():
+            return None, "probe run %d failed (exit %d): %s" % (k, p.returncode, (p.stdout + p.stderr).decode(errors="replace")[-800:])
+        imports, scope, obs = [], [], {}
+        for line in outp.read_text().split("\n"):
+            f = line.split()
+            if len(f) >= 2 and f[0] == "//" and f[1] == "@IMP":
+                imports.append((bytes.fromhex(f[2]) if len(f) > 2 else b"", bytes.fromhex(f[3]) if len(f) > 3 else b""))
+            elif len(f) >= 4 and f[1] == "@EX":
+                if f[3] == "true":
+                    scope.append(b"" if f[2] == "-" else bytes.fromhex(f[2]))
+            elif len(f) >= 4 and f[1] == "@OP":
+                kind, rest = f[3], f[4:]
+                if kind == "name": obs[int(f[2])] = {"k": "name", "a": rest[0] if rest else ""}
+                elif kind == "bool": obs[int(f[2])] = {"k": "bool", "t": rest[0] == "true"}
+                elif kind == "imp":
+                    obs[int(f[2])] = {"k": "imp", "a": "", "b": ""} if rest == ["NIL"] else {"k": "imp", "a": rest[0] if rest else "", "b": rest[1] if len(rest) > 1 else ""}
+                elif kind == "qual": obs[int(f[2])] = {"k": "qual", "a": rest[0] if rest else ""}
+                elif kind == "imports": obs[int(f[2])] = {"k": "imports", "l": [tuple(x.split("=")) for x in rest]}
+        if len(obs) != len(ops):
+            return None, "probe run %d: %d answers for %d calls" % (k, len(obs), len(ops))
+        return {"dst": dst, "inpkg": inpkg, "imports": imports, "scope": scope, "ops": ops, "obs": [obs[i] for i in range(len(ops))]}, None
+
+    res = pmap(one, jobs)
+    return [c for c, e in res if c], [e for c, e in res if e]
+
+
+def pcase_term(c):
+    return "{| p_dst := %s; p_inpkg := %s; p_imports := %s; p_scope := %s; p_ops := %s; p_obs := %s |}" % (
+        coq_bytes(c["dst"]), coq_bool(c["inpkg"]),
+        coq_list("(%s, %s)" % (coq_bytes(a), coq_bytes(b)) for a, b in c["imports"]),
+        coq_list(coq_bytes(x) for x in c["scope"]),
+        coq_list(op_term(*o) for o in c["ops"]), coq_list(out_term(o) for o in c["obs"]))
+
+
+def probe_oracle(c):
+    """Property clauses on the observed probe trace: allocated names fresh w.r.t. everything known visible,
+    stable and injective qualifiers (including against the imports present at the start), sorted listing."""
+    errs = []
+    visible = set(c["scope"])
+    path_q = dict(c["imports"])
+    for i, ((op, a, b), o) in enumerate(zip(c["ops"], c["obs"])):
+        if op == "AllocateName":
+            n = bytes.fromhex(o["a"])
+            if n in visible:
+                errs.append("op %d: AllocateName(%r) returned visible name %r" % (i, a, n))
+            visible.add(n)
+        elif op == "AddImport":
+            if c["inpkg"] and b == c["dst"]:
+                continue
+            q = bytes.fromhex(o["b"])
+            if b in path_q and path_q[b] != q:
+                errs.append("op %d: qualifier for %r changed %r -> %r" % (i, b, path_q[b], q))
+            for p2, q2 in path_q.items():
+                if p2 != b and q2 == q:
+                    errs.append("op %d: qualifier %r used for %r and %r" % (i, q, p2, b))
+            path_q[b] = q
+        elif op == "Imports":
+            ps = [bytes.fromhex(x) for x, _ in o["l"]]
+            if ps != sorted(ps) or len(set(ps)) != len(ps):
+                errs.append("op %d: import list not sorted/unique" % i)
+    return errs
+
+
 def check(ctx, only=None):
     gate = proof_gate(ctx)
     if not ctx.build_tree(drivers=["drv_alloc"]):
@@ -194,6 +348,31 @@ def check(ctx, only=None):
         if e:
             oracle_fail[i] = e
     bad, errs = coq_mismatches(ctx, "Gen.Alloc Harness.C15", [case_term(c, o) for c, o in zip(cases, outs)])
+    # probe stream through the real binary (skipped when replaying API histories)
+    pcs, perrs, pbad = [], [], []
+    if only is None:
+        pcs, perrs = probe_stream(ctx, 160 if ctx.thorough() else 32)
+        for k, c in enumerate(pcs):
+            e = probe_oracle(c)
+            if e:
+                oracle_fail[("probe", k)] = e
+                if sum(1 for x in oracle_fail if isinstance(x, tuple)) > 3:
+                    continue
+                rp = ctx.write_replay("probe-oracle-%d" % k, {"what": e, "probe_case": {"dst": c["dst"].decode(), "inpkg": c["inpkg"], "ops": [[o, a.decode(errors="replace"), b.decode(errors="replace")] for o, a, b in c["ops"]], "observed": c["obs"], "initial_imports": [[a.decode(), b.decode()] for a, b in c["imports"]]}})
+                ctx.violation(rp)
+                oracle_fail[("probe", k)] = e
+        if pcs:
+            pbad, e2 = coq_mismatches(ctx, "Gen.Alloc Harness.C15", [pcase_term(c) for c in pcs], check="p_mismatches")
+            perrs += e2
+        if (pbad or perrs) and not oracle_fail:
+            ex = []
+            for k in pbad[:3]:
+                ex.append({"ops": [[o, a.decode(errors="replace"), b.decode(errors="replace")] for o, a, b in pcs[k]["ops"]], "observed": pcs[k]["obs"],
+                           "model_expected": coq_show(ctx, "Gen.Alloc Harness.C15", "p_model_outs (%s)" % pcase_term(pcs[k]), name="show_p%d" % k)})
+            rp = ctx.write_replay("probe-correspondence", {"what": "probe-template histories run by the real binary disagree with the model (or the probe failed)",
+                                                           "obligation": "correspondence Harness/C15.v p_check", "errors": perrs, "examples": ex})
+            ctx.violation(rp, nofail=True)
+    oracle_fail = {k: v for k, v in oracle_fail.items() if not isinstance(k, tuple)}
     # classification
     for i in sorted(oracle_fail)[:3]:
         def fails(cc, oo):
@@ -234,7 +413,7 @@ def check(ctx, only=None):
     ctx.write_evidence(gate, 2 * len(cases), distinct,
                        "seeded histories (10-200 calls) over small alphabets that force suffix chains; non-trivial = at least one answer carries a numeric suffix; distinct by full history; every history is also re-run with all query calls deleted",
                        [describe(c, o) for c, o in list(zip(cases, outs))[:2]],
-                       extra={"op_histogram": hist, "model_mismatches": len(bad), "oracle_failures": len(oracle_fail),
+                       extra={"op_histogram": hist, "model_mismatches": len(bad), "probe_histories_through_binary": len(pcs), "probe_mismatches": len(pbad), "oracle_failures": len(oracle_fail),
                               "total_calls": sum(len(c["ops"]) for c in cases)},
                        assumptions=["driver drv_alloc calls template.NewRegistry(nil, dst, inPackage): the source package is not needed by these calls"])
 
